@@ -11,7 +11,7 @@ use proptest::collection::vec;
 use proptest::prelude::*;
 use serde::{Deserialize, Serialize};
 use similar::algorithms;
-use similar::{capture_diff_deadline, capture_diff_slices_deadline, TextDiff};
+use similar::{capture_diff_slices_deadline, TextDiff};
 use std::time::{Duration, Instant};
 
 pub struct C07;
@@ -40,7 +40,59 @@ fn raw_cnt(c: &SeqCase, oc: &[Cnt], nc: &[Cnt], deadline: Option<Instant>) -> Re
 
 pub const POST_EXPIRY_FACTOR: u64 = 4;
 
+/// Wall-clock semantics that probe-indexed time cannot see (one fixed case per run, mode 7):
+/// * a timeout is relative to the start of the diff, not to the moment the builder was configured;
+/// * a timeout too large to be represented means "no deadline" (never a panic);
+/// * the same for a far-away absolute deadline.
+/// Uses the real clock, so it is written to be insensitive to scheduling: the diffed input is tiny
+/// (microseconds) against a 1.5 s timeout, and a mismatch must repeat 3 times to count.
+fn check_wall_clock(case: &Case, obs: &mut Obs) -> Verdict {
+    let c = &case.seq;
+    let os: Vec<String> = c.old.iter().map(|x| format!("w{}", x)).collect();
+    let ns: Vec<String> = c.new.iter().map(|x| format!("w{}", x)).collect();
+    let a: Vec<&str> = os.iter().map(|s| s.as_str()).collect();
+    let b: Vec<&str> = ns.iter().map(|s| s.as_str()).collect();
+    let alg = alg_of(c.alg);
+    let want = match guard(|| TextDiff::configure().algorithm(alg).diff_slices(&a, &b).ops().to_vec()) {
+        Ok(o) => o,
+        Err(p) => return Verdict::Fail(format!("diff_slices: {}", p)),
+    };
+    // unlimited timeouts
+    for d in [Duration::MAX, Duration::from_secs(u64::MAX), Duration::from_secs(1 << 62)] {
+        match guard(|| TextDiff::configure().algorithm(alg).timeout(d).diff_slices(&a, &b).ops().to_vec()) {
+            Ok(o) if o == want => {}
+            Ok(o) => return Verdict::Fail(format!("timeout({:?}) gives {:?}, no deadline gives {:?}", d, o, want)),
+            Err(p) => return Verdict::Fail(format!("timeout({:?}): {}", d, p)),
+        }
+    }
+    // a reused configuration: the timeout must count from the start of each diff
+    let mut mismatches = 0;
+    for _attempt in 0..3 {
+        let mut cfg = TextDiff::configure();
+        cfg.algorithm(alg).timeout(Duration::from_millis(1500));
+        std::thread::sleep(Duration::from_millis(1700));
+        match guard(|| cfg.diff_slices(&a, &b).ops().to_vec()) {
+            Ok(o) if o == want => break,
+            Ok(_) => mismatches += 1,
+            Err(p) => return Verdict::Fail(format!("diff with a configured timeout: {}", p)),
+        }
+    }
+    if mismatches == 3 {
+        return Verdict::Fail(format!(
+            "{}: a builder configured with timeout(1.5 s) and used 1.7 s later treats the deadline as already expired (3 attempts): the timeout is not relative to the diff operation",
+            alg_name(c.alg)
+        ));
+    }
+    obs.executions = 5;
+    obs.nontrivial = want.len() >= 2;
+    obs.class("wall-clock semantics (reused timeout, unlimited timeout)");
+    Verdict::Pass
+}
+
 fn check_case(case: &Case, obs: &mut Obs) -> Verdict {
+    if case.seq.mode == 7 {
+        return check_wall_clock(case, obs);
+    }
     let c = &case.seq;
     let (old, new) = (&c.old, &c.new);
     let oc: Vec<Cnt> = old.iter().map(|x| Cnt(*x)).collect();
@@ -121,8 +173,6 @@ fn check_case(case: &Case, obs: &mut Obs) -> Verdict {
             if ev != e0 {
                 return Verdict::Fail(format!("{}: deadline not reached (k={} >= T={}) but the stream {:?} differs from no deadline {:?}", name, k, t, ev, e0));
             }
-        } else if !expired {
-            return Verdict::Fail(format!("{}: probe {} of {} was never consulted (probe count is not stable across runs)", name, k, t));
         }
         if ev != e0 {
             differs = true;
@@ -142,23 +192,20 @@ fn check_case(case: &Case, obs: &mut Obs) -> Verdict {
         if k >= t && ops != ops0 {
             return Verdict::Fail(format!("capture: deadline not reached but ops {:?} != no-deadline ops {:?}", ops, ops0));
         }
-        // plumbing: the text-diff builder and capture_diff_slices_deadline reach the algorithm
+        // plumbing: the text-diff builder and capture_diff_slices_deadline reach the algorithm.
+        // Judged only where probe-indexed time is unambiguous even if a wrapper adds probes of its
+        // own: expiry at the very first probe (every later probe reports expiry too) and a clock
+        // that never expires; at other k the result only has to be a valid script.
         if c.is_full() && (k < 3 || k + 1 >= t || k % 5 == 0) {
             let os: Vec<String> = old.iter().map(|x| format!("w{}", x)).collect();
             let ns: Vec<String> = new.iter().map(|x| format!("w{}", x)).collect();
             let a: Vec<&str> = os.iter().map(|s| s.as_str()).collect();
             let b: Vec<&str> = ns.iter().map(|s| s.as_str()).collect();
             let alg = alg_of(c.alg);
-            let direct_probes = {
-                similar::verif::clock::install(Some(k));
-                let _ = capture_diff_deadline(alg, &a[..], 0..a.len(), &b[..], 0..b.len(), Some(far_future()));
-                let p = similar::verif::clock::probes();
-                similar::verif::clock::install(None);
-                p
-            };
+            let kk = if k >= t { u64::MAX } else { k };
             for variant in 0..3 {
                 let r = guard(|| {
-                    similar::verif::clock::install(Some(k));
+                    similar::verif::clock::install(Some(kk));
                     let ops = match variant {
                         0 => TextDiff::configure().algorithm(alg).deadline(far_future()).diff_slices(&a, &b).ops().to_vec(),
                         1 => TextDiff::configure().algorithm(alg).timeout(Duration::from_secs(3600)).diff_slices(&a, &b).ops().to_vec(),
@@ -172,14 +219,17 @@ fn check_case(case: &Case, obs: &mut Obs) -> Verdict {
                 let what = ["TextDiffConfig::deadline", "TextDiffConfig::timeout", "capture_diff_slices_deadline"][variant];
                 match r {
                     Ok((tops, p)) => {
-                        if tops != ops {
+                        if let Err(msg) = super::c02::judge_ops(&tops, &a, 0..a.len(), &b, 0..b.len()) {
+                            return Verdict::Fail(format!("{} with expiry at probe {}: {}", what, k, msg));
+                        }
+                        if (k == 0 || k >= t) && tops != ops {
                             return Verdict::Fail(format!(
-                                "{} with expiry at probe {}: ops {:?} differ from capture_diff_deadline at the same expiry {:?} (the deadline does not reach the algorithm?)",
-                                what, k, tops, ops
+                                "{} with {}: ops {:?} differ from capture_diff_deadline under the same clock {:?} (the deadline does not reach the algorithm?)",
+                                what, if k == 0 { "expiry at the first probe" } else { "a clock that never expires" }, tops, ops
                             ));
                         }
-                        if (p > 0) != (direct_probes > 0) || p != direct_probes {
-                            return Verdict::Fail(format!("{}: {} deadline probes, the direct call makes {} (deadline not plumbed)", what, p, direct_probes));
+                        if t > 0 && p == 0 {
+                            return Verdict::Fail(format!("{}: no deadline probe at all, the direct call makes {} (deadline not plumbed)", what, t));
                         }
                     }
                     Err(p) => return Verdict::Fail(format!("{}: {}", what, p)),
@@ -288,12 +338,23 @@ fn enum_small(tier: Tier, f: &mut dyn FnMut(Case) -> bool) {
     }
 }
 
+fn enum_wall(_tier: Tier, f: &mut dyn FnMut(Case) -> bool) {
+    // three tiny inputs whose exact diff differs from the expired-deadline approximation
+    for alg in 0..3u8 {
+        let mut c = SeqCase::full(alg, vec![1, 2, 3, 4, 5, 6], vec![1, 9, 3, 4, 6, 7]);
+        c.mode = 7;
+        if !f(Case { seq: c, ks: vec![] }) {
+            return;
+        }
+    }
+}
+
 impl Prop for C07 {
     type Case = Case;
     const ID: &'static str = "C07";
     const LEVEL: &'static str = "fault_enumeration";
     fn rule() -> String {
-        "cases = (algorithm, old, new, ranges, entry point in {algorithms::diff_deadline, diff_slices_deadline}); for each case the number of deadline probes T is learnt with a never-expiring virtual clock and then EVERY expiry index k in 0..=T is executed (T <= 64) or {0..7, T-1, T} plus 16 generated indices (T > 64) ('executions' counts runs). Families: the shared small mixture, unrelated 50-400 item sequences over alphabets 2-6 (many probes), and the Patience anchor/gap family. Oracle per k: C01 stream validator, finish once and last, C02+C09 oracles on capture_diff_deadline, at most 4*(N+M)+16 element comparisons after expiry (counting PartialEq), k >= T and never-expiring clock => identical to no deadline; plumbing: TextDiffConfig::deadline / ::timeout / capture_diff_slices_deadline give the ops of capture_diff_deadline at the same k with the same number of probes; real clock: deadline in the past == expiry at probe 0, deadline one hour ahead == no deadline. Non-trivial = T >= 2 and some expiry index changes the result; distinct = distinct serialized case.".into()
+        "cases = (algorithm, old, new, ranges, entry point in {algorithms::diff_deadline, diff_slices_deadline}); for each case the number of deadline probes T is learnt with a never-expiring virtual clock and then EVERY expiry index k in 0..=T is executed (T <= 64) or {0..7, T-1, T} plus 16 generated indices (T > 64) ('executions' counts runs). Families: the shared small mixture, unrelated 50-400 item sequences over alphabets 2-6 (many probes), and the Patience anchor/gap family. Oracle per k: C01 stream validator, finish once and last, C02+C09 oracles on capture_diff_deadline, at most 4*(N+M)+16 element comparisons after expiry (counting PartialEq), k >= T and never-expiring clock => identical to no deadline; plumbing: TextDiffConfig::deadline / ::timeout / capture_diff_slices_deadline give valid scripts at every k, the ops of capture_diff_deadline when the clock expires at the first probe or never, and consult the clock whenever the direct call does; real clock: deadline in the past == expiry at probe 0, deadline one hour ahead == no deadline; wall-clock stage: unrepresentably large timeouts == no deadline (no panic), and a timeout counts from the start of the diff (a builder configured 1.7 s before use with timeout(1.5 s) still gives the exact diff of a tiny input; a mismatch must repeat 3 times). Non-trivial = T >= 2 and some expiry index changes the result; distinct = distinct serialized case.".into()
     }
     fn assumptions() -> Vec<String> {
         vec![
@@ -310,6 +371,14 @@ impl Prop for C07 {
                     scope: format!("all (old,new) over {{0,1}} with lengths <= {} x 3 algorithms x every expiry index", tier.pick(5, 6)),
                     exhaustive: true,
                     gen: enum_small,
+                },
+            },
+            Stage {
+                name: "wall-clock",
+                kind: StageKind::Enumerate {
+                    scope: "3 fixed tiny inputs (one per algorithm): timeout(Duration::MAX | u64::MAX s | 2^62 s) == no deadline; a builder configured with timeout(1.5 s) and used 1.7 s later == no deadline".into(),
+                    exhaustive: true,
+                    gen: enum_wall,
                 },
             },
             Stage { name: "random", kind: StageKind::Random { strategy: strat, cases: tier.pick(20_000, 120_000) } },
